@@ -72,9 +72,10 @@ Definition to_lblock (b : block) (prev_lottery : N) : lblock :=
 
 (* ---------------- checkpoints (checkpoints.go) ---------------- *)
 Definition is_secured (h : N) : bool :=
-  if cp_max cfg =? 0 then false else h / cp_interval cfg <=? cp_max cfg.
+  if cp_max cfg =? 0 then false else h <=? wmul (cp_max cfg) (cp_interval cfg).
 Definition is_checkpoint (h : N) : bool :=
-  if cp_max cfg =? 0 then false else (h mod cp_interval cfg =? 0) && (h / cp_interval cfg <=? cp_max cfg).
+  if cp_max cfg =? 0 then false
+  else negb (h =? 0) && (h mod cp_interval cfg =? 0) && (h / cp_interval cfg <=? cp_max cfg).
 
 (* ---------------- difficulty (difficulty.go) ---------------- *)
 Definition to_int64 (x : N) : Z := let x' := x mod two64 in if x' <? 9223372036854775808 then Z.of_N x' else (Z.of_N x' - 18446744073709551616)%Z.
